@@ -13,6 +13,7 @@ MUTATORS = {'append', 'extend', 'pop', 'remove', 'insert', 'add', 'update', 'cle
 def assigned_names(stmts):
     """names (locals) and heap fields possibly modified by a statement list (syntactic)."""
     names, fields = set(), set()
+    receivers = set()
 
     def tgt(t):
         if isinstance(t, ast.Name):
@@ -31,8 +32,27 @@ def assigned_names(stmts):
             elif isinstance(base, ast.Attribute):
                 fields.add(base.attr)
 
+    def walk(node, nested=False):
+        """pre-order walk that skips blocks which always leave the loop (last statement break/return/raise, no
+        `continue` inside): their effects never reach the back edge.  (The back-edge frame check in run_loop
+        makes this pruning safe: anything not havocked must be provably unchanged there.)"""
+        yield node
+        for name, val in ast.iter_fields(node):
+            if isinstance(val, list) and val and isinstance(val[0], ast.stmt):
+                if name in ('body', 'orelse') and isinstance(node, ast.If) and _leaves_loop(val, nested):
+                    continue
+                inner = nested or isinstance(node, (ast.For, ast.While))
+                for c in val:
+                    yield from walk(c, inner)
+            elif isinstance(val, list):
+                for c in val:
+                    if isinstance(c, ast.AST):
+                        yield from walk(c, nested)
+            elif isinstance(val, ast.AST):
+                yield from walk(val, nested)
+
     for s in stmts:
-        for n in ast.walk(s):
+        for n in walk(s):
             if isinstance(n, (ast.FunctionDef, ast.Lambda)):
                 continue
             if isinstance(n, ast.Assign):
@@ -56,10 +76,11 @@ def assigned_names(stmts):
             elif isinstance(n, ast.Call) and isinstance(n.func, ast.Attribute) and n.func.attr in MUTATORS:
                 r = n.func.value
                 if isinstance(r, ast.Name):
-                    names.add(r.id)
+                    receivers.add(r.id)
                 elif isinstance(r, ast.Attribute):
                     fields.add(r.attr)
-    return names, fields
+    assigned_names.last_receivers = receivers - names
+    return names | receivers, fields
 
 
 class StmtMixin:
@@ -319,7 +340,7 @@ class StmtMixin:
         if txt == 'TYPE_CHECKING':
             return self.exec_block(s.orelse, st) if s.orelse else [Outcome('normal', st)]
         for st2, v in self.ev(s.test, st, outs):
-            t = z3.simplify(self.truthy(v))
+            t = z3.simplify(self.truthy(v, st2))
             if z3.is_true(t):
                 outs.extend(self.exec_block(s.body, st2))
                 continue
@@ -439,6 +460,8 @@ class StmtMixin:
         outs = []
         tag = f'#{ordn}'
         # 1. invariant holds on entry
+        for hnt in spec.init_hints:
+            st.assume(self.instantiate(hnt, st))
         for k, inv in enumerate(spec.invariant):
             g = self.ev_spec(inv, st)
             self.oblige('inv-init', st, g, s.lineno, inv, tag=f'{tag}.{k}')
@@ -451,11 +474,14 @@ class StmtMixin:
                 fields.add(m)
         h = st.copy()
         pre = st.snapshot()
+        recv_only = set(getattr(assigned_names, 'last_receivers', ()))
         for nm in sorted(names):
             if nm == idx_name:
                 continue
             if nm in h.env:
                 v = h.env[nm]
+                if nm in recv_only and isinstance(v.ty, (TRef, TObj)):
+                    continue        # x.m(...) on an object does not rebind x; its effect is on the heap (callee frame)
                 if isinstance(v.ty, TPy):
                     raise Unsupported(f'loop reassigns python-level value {nm}')
                 if v.ty is NONE:
@@ -471,11 +497,17 @@ class StmtMixin:
                 h.ghost[f] = fresh(h.ghost[f].ty, f)
                 modset.add(f)
             else:
+                fty = self.any_field_ty(f)
+                if fty is not None:
+                    arr = self.heap_arr(st, f, fty)        # the pre-loop array (lazily created)
+                    pre.heap[f] = arr
+                    h.heap[f] = z3.Const(fresh_name('H_' + f), arr.sort())
                 modset.add(f)
         if idx_name is not None:
             h.env[idx_name] = fresh(INT, idx_name)
             h.assume(h.env[idx_name].t >= 0)
             h.assume(h.env[idx_name].t <= n_term)
+        inv_start = len(h.pc)
         for inv in spec.invariant:
             h.assume(self.ev_spec(inv, h, old=st.old))
         if not self.feasible(h):
@@ -497,7 +529,7 @@ class StmtMixin:
                 enter = st2.copy().assume(t)
                 leave = st2.assume(z3.Not(t))
                 if self.feasible(enter):
-                    enter.env['$entry'] = V(TPy('entry'), dict(enter.env))
+                    enter.env['$entry'] = V(TPy('entry'), enter.snapshot())
                     head_len = len(enter.pc)
                     if pre_body is not None:
                         pre_body(enter)
@@ -506,6 +538,35 @@ class StmtMixin:
                             e = o.st
                             if step is not None:
                                 step(e)
+                            # frame of the loop: what was not havocked at the head must be unchanged at the back edge
+                            for f_, arr in e.heap.items():
+                                if f_ in modset:
+                                    continue
+                                base_arr = h.heap.get(f_)
+                                if base_arr is None:
+                                    if str(arr) == 'H_' + f_:
+                                        continue
+                                    raise Unsupported(f'loop body modifies {f_} (first touched inside): add it to the loop `modifies`')
+                                if not z3.eq(arr, base_arr):
+                                    self.oblige('loop-frame', e, arr == base_arr, s.lineno,
+                                                f'{f_} unchanged along the back edge (not in the loop `modifies`)', tag=f'{tag}.{f_}')
+                            for n_, hv in h.env.items():
+                                if n_.startswith('$') or n_ == idx_name or n_ not in e.env or n_ in names:
+                                    continue
+                                ev_ = e.env[n_]
+                                if isinstance(hv.ty, TPy) or hv.ty is NONE or ev_.ty != hv.ty:
+                                    if ev_ is not hv and not (isinstance(hv.ty, TPy) or hv.ty is NONE):
+                                        raise Unsupported(f'loop body changes the type of {n_}')
+                                    continue
+                                if ev_.t is not hv.t and not z3.eq(ev_.t, hv.t):
+                                    self.oblige('loop-frame', e, ev_.t == hv.t, s.lineno,
+                                                f'local {n_} unchanged along the back edge', tag=f'{tag}.{n_}')
+                            for g_, gv in e.ghost.items():
+                                if g_ in modset or g_ not in h.ghost:
+                                    continue
+                                if not z3.eq(gv.t, h.ghost[g_].t):
+                                    self.oblige('loop-frame', e, gv.t == h.ghost[g_].t, s.lineno,
+                                                f'ghost {g_} unchanged along the back edge', tag=f'{tag}.{g_}')
                             for hnt in spec.hints:
                                 e.assume(self.instantiate(hnt, e))
                             proved = []
@@ -516,7 +577,7 @@ class StmtMixin:
                                 proved.append(g)
                             if spec.focus and proved:
                                 e = e.copy()
-                                e.pc = e.pc[:head_len] + proved
+                                e.pc = e.pc[inv_start:head_len] + proved
                             for k, inv in enumerate(spec.invariant):
                                 g = self.ev_spec(inv, e, old=st.old)
                                 self.oblige('inv-preserve', e, g, s.lineno, inv, tag=f'{tag}.{k}')
@@ -598,6 +659,19 @@ class StmtMixin:
                 outs.append(Outcome('normal', c))
         outs.extend(Outcome('normal', b) for b in broke)
         return outs
+
+
+def _leaves_loop(block, nested=False):
+    last = block[-1]
+    if not isinstance(last, (ast.Return, ast.Raise) if nested else (ast.Break, ast.Return, ast.Raise)):
+        return False
+    for st_ in block:
+        for n in ast.walk(st_):
+            if isinstance(n, ast.Continue):
+                return False
+            if isinstance(n, (ast.For, ast.While)):
+                return False
+    return True
 
 
 def _as_load(t):
